@@ -13,3 +13,5 @@ import SimuVerif.Properties.C14
 import SimuVerif.Properties.C04
 import SimuVerif.Properties.C08
 import SimuVerif.Properties.C19
+import SimuVerif.Properties.C06
+import SimuVerif.Properties.C07
